@@ -100,7 +100,8 @@ def read_dispatch(repo, unrec):
     src = read_src(repo, "tracing-core/src/dispatch.rs", unrec)
     d = {"slow": "NoneUnknown", "current": "NoneUnknown", "prior": "PriorUnknown", "restore": "RestoreUnknown",
          "fast": "FastUnknown", "incr": False, "decr": False, "consts": (0, 0, 0), "setg": "CasUnknown",
-         "needs": "None", "withdef": False, "getcur": False, "slow_guard": "GuardUnknown", "current_guard": "GuardUnknown", "sd_enters": False}
+         "needs": "None", "withdef": False, "getcur": False, "slow_guard": "GuardUnknown", "current_guard": "GuardUnknown", "sd_enters": False,
+         "open_dead": False, "close_dead": False}
 
     def one(name, pred=None):
         bs = [b for b in fn_bodies(src, name) if pred is None or pred(b)]
@@ -161,9 +162,18 @@ def read_dispatch(repo, unrec):
         m = re.fullmatch(r"letprior=CURRENT_STATE\.try_with\(\|state\|\{state\.can_enter\.set\(true\);state\.default\.replace\(Some\(new_dispatch\)\)"
                          r"(\.unwrap_or_else\(\|\|get_global\(\)\.clone\(\)\))?\}\)\.ok\(\)(\.flatten\(\))?;"
                          r"EXISTS\.store\(true,%s\);(SCOPED_COUNT\.fetch_add\(1,%s\);)?DefaultGuard\(prior\)" % (ORD, ORD), sd[0])
-        if not m:
+        # the same with the bookkeeping INSIDE the try_with closure: not executed when the thread-local is already destroyed
+        m_in = re.fullmatch(r"letprior=CURRENT_STATE\.try_with\(\|state\|\{state\.can_enter\.set\(true\);letprior=state\.default\.replace\(Some\(new_dispatch\)\);"
+                            r"EXISTS\.store\(true,%s\);SCOPED_COUNT\.fetch_add\(1,%s\);prior\}\)\.ok\(\)\.flatten\(\);DefaultGuard\(prior\)" % (ORD, ORD), sd[0])
+        if m_in:
+            d["prior"] = "PriorIsOption"
+            d["incr"] = True
+            d["open_dead"] = False
+            unrec.append("%s: State::set_default increments SCOPED_COUNT inside the try_with closure: a scope opened while the thread-local is destroyed is not counted (its guard's drop still decrements)" % W)
+        elif not m:
             unrec.append("%s: State::set_default: shape not recognised" % W)
         else:
+            d["open_dead"] = True
             if m.group(1) is None and m.group(2) is not None:
                 d["prior"] = "PriorIsOption"
             elif m.group(1) is not None and m.group(2) is None:
@@ -182,6 +192,7 @@ def read_dispatch(repo, unrec):
         m = re.fullmatch(r"(SCOPED_COUNT\.fetch_sub\(1,%s\);)?(.*)" % ORD, dr[0])
         rest = m.group(2)
         d["decr"] = m.group(1) is not None
+        d["close_dead"] = d["decr"]        # the recognised shapes decrement before (outside) the try_with
         if not d["decr"]:
             unrec.append("%s: DefaultGuard::drop does not decrement SCOPED_COUNT" % W)
         if rest == "letprev=CURRENT_STATE.try_with(|state|state.default.replace(self.0.take()));drop(prev)":
@@ -613,7 +624,9 @@ def main(repo, _unused=None):
          "  d_get_current_is_entered_current := %s;" % b(d["getcur"]),
          "  d_slow_guard := %s;" % d["slow_guard"],
          "  d_current_guard := %s;" % d["current_guard"],
-         "  d_set_default_enters := %s |}." % b(d["sd_enters"]),
+         "  d_set_default_enters := %s;" % b(d["sd_enters"]),
+         "  d_open_counts_when_dead := %s;" % b(d["open_dead"]),
+         "  d_close_counts_when_dead := %s |}." % b(d["close_dead"]),
          "",
          "Definition gen_guard : guard_shape := {|",
          "  g_level_enabled := %s;" % coq_list("(%s, %s)" % x for x in (g["level"] or [])),
